@@ -42,5 +42,14 @@ try:
 finally:
     subprocess.run(["git", "-C", "/repo", "worktree", "remove", "--force", wt], capture_output=True)
     subprocess.run(["git", "-C", "/repo", "worktree", "prune"], capture_output=True)
-json.dump(res, open(os.path.join(d, "result.json"), "w"), indent=1)
+rp = os.path.join(d, "result.json")
+if os.path.exists(rp):
+    try:
+        old = json.load(open(rp))
+        for k, v in old.get("checks", {}).items():
+            res["checks"].setdefault(k, v)
+        res["props"] = sorted(set(res["props"]) | set(old.get("props", [])))
+    except Exception:
+        pass
+json.dump(res, open(rp, "w"), indent=1)
 print(name, {k: ("quiet" if v["quiet"] else "ALARM " + str((v["first"] or {}).get("kind") or (v["first"] or {}).get("key")) + ": " + str((v["first"] or {}).get("what"))[:160]) for k, v in res["checks"].items()})
